@@ -197,6 +197,27 @@ def check_unknown_case(sel):
             out.append(V(PROP, "unknown-wrong-error", site=fname,
                          witness=",".join(sel), detail=repr(e), case=case,
                          kind="unknown"))
+    # ... and by the curve's own entry point, every time it is asked
+    if len(sel) <= 3:
+        idnt = _fresh()
+        for attempt in (1, 2, 3):
+            try:
+                idnt.apply_preprocessing(list(sel))
+                out.append(V(PROP, "unknown-accepted",
+                             site="Indentation.apply_preprocessing",
+                             witness=",".join(sel) + f":attempt{attempt}",
+                             detail=f"request number {attempt} for a list "
+                             "with an unknown identifier was accepted",
+                             case=case, kind="unknown"))
+                break
+            except (KeyError, ValueError):
+                pass
+            except BaseException as e:
+                out.append(V(PROP, "unknown-wrong-error",
+                             site="Indentation.apply_preprocessing",
+                             witness=",".join(sel), detail=repr(e),
+                             case=case, kind="unknown"))
+                break
     return out, {"rejected": int(not out)}
 
 
